@@ -523,9 +523,14 @@ def run_case(case):
         _check_block(np, acc, kind, tag, "eager", b, tuple(slices), ref_tables, ref_axes, group_ob)
 
     # ---- lazy ----------------------------------------------------------------------------------------------------------
-    lazy = ens.ensemble_blocks(chunks)
+    # a fresh instance: generate_blocks on a dask-backed array object computes it in place (ArrayObject.compute mutates
+    # the receiver), which would change what chunks=None means for the lazy pass
+    ens_lazy = _build(case)
+    lazy = ens_lazy.ensemble_blocks(chunks)
     lz = lazy.compute(scheduler="synchronous") if hasattr(lazy, "compute") else lazy
     lz = np.asarray(lz, dtype=object) if not isinstance(lz, np.ndarray) else lz
+    if len(shape) == 0 and lz.size == 1:
+        lz = lz.reshape(())          # Potential wraps the single block of a 0-d ensemble in a length-1 array
     acc.add(_OB_LAZY, tuple(lz.shape) == nblocks_axis,
             f"{tag}: lazy block array has shape {lz.shape}, eager partition has {nblocks_axis} blocks per axis")
     if tuple(lz.shape) == nblocks_axis:
